@@ -52,6 +52,12 @@ CHECKS = {
  "C17": ("other", "B", "CrossHair symbolic execution (z3) of the real decoders on fully symbolic Unicode text, per declared board size",
          "For each of 9 puzzle codecs and the Rooms/ValuedRooms/Grid combinators, every text of length <= 2-4 and every declared (height,width) in 0..2 (0..3 thorough): only None / ValueError / a problem of the declared dimensions that serialises and decodes to itself; URL level with symbolic width/height/name/flags over a fixed body list and a fully symbolic short url. Longer bodies and the recursion-depth risk of Rooms on huge boards are outside the bound.",
          "CrossHair soundness; builtin models (exact except for the stated non-ASCII-digit cut, covered by a finite table)", "2/C17"),
+ "C19": ("other", "C+B", "AST->SMT translation of the PRNG kernels (z3 bit-vectors / integers / floating point) + CrossHair symbolic execution of choice, shuffle, neighbour generators, generate_problem",
+         "XorShift.__init__/next are regenerated from source as 64-bit vector terms and proven equal to Marsaglia's xorshift128 step with the state invariant for all seeds/states; randint is translated over mathematical integers with a fresh symbol per draw (loop unrolled twice): range, value a + x mod w, rejection exactly above the limit, ValueError conditions and the multiple-of-w lemma behind uniformity are unsat queries over all (a,b) and draws; random() in [0,1) as an FP query. choice/shuffle (bijection for N<=4), neighbour shape/purity on 2x2, generate_problem soundness with symbolic callback verdicts (<= 2 steps) and reproducibility under the deterministic PRNG (global random as two symbolic feeds) are CrossHair harnesses.",
+         "Engine C translator side obligations discharged; z3; CrossHair soundness; uniformity is relative to uniform 32-bit draws", "2/C19"),
+ "C20": ("other", "C+B", "AST->SMT-LIB strings translation of the boolean parser decided by cvc5 over all strings; CrossHair for name dispatch; finite tables for the rest",
+         "_strtobool: for every string of any length each path's outcome equals the case-insensitive specification (cvc5 str.to_lower + regular expressions; non-ASCII closed by a table over all code points). _get_backend_by_name: every string <= 15 chars (CrossHair). Environment x importable modules x flags, precedence of per-call argument over config, never-native for acyclic, and which class/entry point receives a solve are finite tables run completely (labelled, no solver).",
+         "cvc5 1.0.3; CrossHair; tables are exhaustive over their stated finite domains", "2/C20"),
 }
 NA = {
  "C18": "SegmentationBuilder2D is BFS/DFS over sets/dicts/deques driven by random: CrossHair did not complete a single path of a one-step harness on a 2x2 board in 10 CPU-minutes (measured, DESIGN 2/C18); a hand SMT model would not be the real code.",
